@@ -16,6 +16,8 @@ type C04Case struct {
 	ArgLimit int    `json:"arg_limit,omitempty"`
 	// FirstValue: rules compare against %{COLLECTION.key}, the first value stored under a (repeated) name
 	FirstValue bool `json:"first_value_readers,omitempty"`
+	// Neighbours: the long-lived WAF serves other requests (one of them triggers run-time exclusions) in between
+	Neighbours bool `json:"neighbours,omitempty"`
 }
 
 func genC04(t *rapid.T) *C04Case {
@@ -71,6 +73,16 @@ func genC04(t *rapid.T) *C04Case {
 				Op:      rapid.SampledFrom([]string{"streq", "contains", "beginsWith"}).Draw(t, "fop"), Arg: fmt.Sprintf("%%{%s.%s}", coll, key)}})
 		}
 		c.FirstValue = true
+	}
+	if rs := c.RS.Rules(); len(rs) > 0 && rapid.IntRange(0, 2).Draw(t, "neighbours") == 0 {
+		// the long-lived WAF also serves OTHER requests between the repetitions; one of them makes a rule change
+		// per-transaction state (a run-time target exclusion for one of the rules), which must stay in that transaction
+		victim := rs[rapid.IntRange(0, len(rs)-1).Draw(t, "victim")]
+		key := rapid.SampledFrom([]string{"a", "b", "A", "c", "/^a/"}).Draw(t, "exclkey")
+		coll := rapid.SampledFrom([]string{"ARGS", "ARGS_GET", "REQUEST_HEADERS"}).Draw(t, "exclcoll")
+		c.RS.Items = append([]Item{{Rule: &Rule{ID: 960, Phase: 1, Disr: "pass", Targets: []Target{{Var: "ARGS_GET", Key: "excl"}}, Op: "streq", Arg: "1",
+			Acts: []string{fmt.Sprintf("ctl:ruleRemoveTargetById=%d;%s:%s", victim.ID, coll, key), "ctl:ruleRemoveById=" + fmt.Sprint(rs[len(rs)-1].ID)}}}}, c.RS.Items...)
+		c.Neighbours = true
 	}
 	if rapid.IntRange(0, 5).Draw(t, "arglimit") == 0 {
 		c.ArgLimit = rapid.IntRange(1, 3).Draw(t, "limit")
@@ -140,6 +152,23 @@ func checkC04(c *C04Case) Result {
 	}
 	defer closeWAF(w)
 	for i := 0; i < reused; i++ {
+		if c.Neighbours && i == reused/2 {
+			// two other requests, derived from the probe: the same names with other values, and the probe plus the
+			// argument that triggers the run-time exclusions
+			n1, n2 := c.Req, c.Req
+			n1.Query = nil
+			for _, kv := range c.Req.Query {
+				n1.Query = append(n1.Query, KV{kv.K, "x1"})
+			}
+			n2.Query = append(append([]KV(nil), c.Req.Query...), KV{"excl", "1"})
+			for _, nb := range []*Req{&n1, &n2, &n2} {
+				if _, f := runCanonical(w, nb); f != nil {
+					res.Fail = f
+					return res
+				}
+			}
+			res.Labels = append(res.Labels, "other-requests-in-between")
+		}
 		o, f := runCanonical(w, &c.Req)
 		if f != nil {
 			res.Fail = f
